@@ -934,3 +934,14 @@ def cross_bus_await_into_sync_only_event(kmax=8):
             ['idle', 'A'], ['idle', 'B'], ['obs_all', 'end']]
     return dict(buses=['A', 'B'], order=['A', 'B'], reals={'d1': ['1/100', '3/10'], 'd2': ['0', '1/10']}, ints={'k': [0, kmax]}, handlers=handlers, main=main,
                 actors={'r': [['sleep', 'd1'], ['sleep_steps', 'k'], ['root', 'A', 'G', 'R1']]}, horizon=6)
+
+
+
+def dispatch_then_block(n_events=1):
+    """a warm, idle bus sits in its 0.1 s queue poll; main dispatches at t1 (anywhere in the poll interval) and then does
+    synchronous work for b seconds without yielding, so that the poll timer falls due before the run loop gets to look at the
+    event: the event must still be processed and wait_until_idle() must return."""
+    handlers = [['A', 'X', 'hX', [['ret', 'x']]], ['A', 'P', 'hP', [['sleep', 'd1'], ['ret', 'p']]]]
+    main = [['root', 'A', 'X', 'X0'], ['idle', 'A'], ['sleep', 't1'], ['root', 'A', 'P', 'P1'], ['block', 'b']] + \
+           ([['root', 'A', 'P', 'P2']] if n_events > 1 else []) + [['idle', 'A'], ['obs_all', 'end']]
+    return dict(buses=['A'], reals={'d1': ['0', '1/10'], 't1': ['0', '1/4'], 'b': ['0', '3/20']}, handlers=handlers, main=main, horizon=6)
